@@ -32,8 +32,13 @@ FieldOptsOf(m) ==
   (IF "fo" \in DOMAIN m /\ m["fo"] \in {"both", "ser"} THEN << <<"fser", <<"mark", "fo", "ser">> >> >> ELSE <<>>)
   \o (IF "fo" \in DOMAIN m /\ m["fo"] \in {"both", "deser"} THEN << <<"fdeser", <<"mark", "fo", "deser">> >> >> ELSE <<>>)
   \o (IF "fs" \in DOMAIN m THEN << <<"strategy", Strat("fs", m["fs"])>> >> ELSE <<>>)
-Class(m) ==
-  <<"dc", "C", << <<"f", NTt, <<"req">>, FieldOptsOf(m)>> >>,
+\* shape "one": the field alone;  "fg" / "gf": a sibling field g of the SAME type (same three type keys) without any field-level
+\* registration, declared after / before f -- field-level registrations belong to their field, whatever the declaration order
+Shapes == {"one", "fg", "gf"}
+FieldsOf(m, sh) == LET f == <<"f", NTt, <<"req">>, FieldOptsOf(m)>>  g == <<"g", NTt, <<"req">>, <<>> >> IN
+                   CASE sh = "one" -> <<f>> [] sh = "fg" -> <<f, g>> [] sh = "gf" -> <<g, f>>
+Class(m, sh) ==
+  <<"dc", "C", FieldsOf(m, sh),
     << <<"flags", {"dialect_flag"}>> >>
     \o (IF TableFor("gd", m) # <<>> THEN << <<"dialect", << <<"name", "GD">>, <<"strategy", TableFor("gd", m)>> >> >> >> ELSE <<>>)
     \o (IF TableFor("cs", m) # <<>> THEN << <<"cfg_strategy", TableFor("cs", m)>> >> ELSE <<>>) >>
@@ -48,16 +53,19 @@ Small == { m \in AllBoth : Cardinality(DOMAIN m) <= 2 \/ Cardinality(DOMAIN m) >
 Assignments == IF Quick THEN AllBoth \cup UNION { Variants(m) : m \in Small }
                ELSE AllBoth \cup UNION { Variants(m) : m \in AllBoth }
 
-Value == <<"obj", "C", << L(<< <<"date", 2024, 2, 29>> >>) >> >>
-Input == Dct(<< <<S("f"), L(<< S("2024-02-29") >>)>> >>)
+DV == L(<< <<"date", 2024, 2, 29>> >>)
+DJ == L(<< S("2024-02-29") >>)
+Value(sh) == <<"obj", "C", IF sh = "one" THEN <<DV>> ELSE <<DV, DV>> >>
+Input(sh) == Dct(CASE sh = "one" -> << <<S("f"), DJ>> >> [] sh = "fg" -> << <<S("f"), DJ>>, <<S("g"), DJ>> >> [] sh = "gf" -> << <<S("g"), DJ>>, <<S("f"), DJ>> >>)
+ShapeOf(C) == IF Len(C[3]) = 1 THEN "one" ELSE IF C[3][1][1] = "f" THEN "fg" ELSE "gf"
 
 CxOf(m) == [DefaultCx EXCEPT !.dlct = CallDialect(m)]
 CallOpts(m) == IF CallDialect(m) # <<>> THEN << <<"dialect", CallDialect(m)>> >> ELSE <<>>
 
 Init == T = <<"start">> /\ v = <<"nov">> /\ kind = "start" /\ call = <<>>
-Next == \/ kind = "start" /\ \E m \in Assignments : T' = Class(m) /\ call' = CallDialect(m) /\ v' = v /\ kind' = "type"
-        \/ kind = "type" /\ T' = T /\ call' = call /\ v' = Value /\ kind' = "value"
-        \/ kind = "type" /\ T' = T /\ call' = call /\ v' = Input /\ kind' = "input"
+Next == \/ kind = "start" /\ \E m \in Assignments, sh \in Shapes : T' = Class(m, sh) /\ call' = CallDialect(m) /\ v' = v /\ kind' = "type"
+        \/ kind = "type" /\ T' = T /\ call' = call /\ v' = Value(ShapeOf(T)) /\ kind' = "value"
+        \/ kind = "type" /\ T' = T /\ call' = call /\ v' = Input(ShapeOf(T)) /\ kind' = "input"
 
 Cx == [DefaultCx EXCEPT !.dlct = call]
 Wire == Pack(T, Cx, v)
@@ -67,7 +75,11 @@ COpts == IF call # <<>> THEN << <<"dialect", call>> >> ELSE <<>>
 \* ---- model theorem: exactly one level applies -- the output is the built-in rendering, the untouched
 \* value (pass_through) or ONE marker
 Rendered(w) == w \in { L(<<S("2024-02-29")>>), L(<< <<"date", 2024, 2, 29>> >>) } \/ (w[1] = "str")
-ExactlyOne == kind = "value" => Rendered(PairsGet(Wire[2], S("f")))
+ExactlyOne == kind = "value" => \A i \in DOMAIN Wire[2] : Rendered(Wire[2][i][2])
+\* a field without field-level registrations is rendered exactly as if it were alone in the class
+SiblingFree == (kind = "value" /\ ShapeOf(T) # "one") =>
+                 LET alone == <<"dc", "C", << <<"g", NTt, <<"req">>, <<>> >> >>, T[4]>> IN
+                 PairsGet(Wire[2], S("g")) = PairsGet(Pack(alone, Cx, <<"obj", "C", <<DV>> >>)[2], S("g"))
 
 EmitInv == /\ kind = "value" => PrintT(ToJson(<<"vec", T, v, Wire, <<"unknown">>, COpts>>))
            /\ kind = "input" => PrintT(ToJson(<<"inp", T, v, Dec, {}, COpts>>))
